@@ -43,8 +43,9 @@ RULE = ("(a) pairs (t1, t2) of tree-shaped nests of list/tuple/dict/set/frozense
 TRUSTED = [
     "the pairing chosen by _get_most_in_common_pairs_in_iterables is an oracle of the model (any list of index pairs; the theorems hold for every oracle); "
     "the harness feeds the recorded pairings and checks them for validity",
-    "item hashes are hash_pure (Hash/HashModel.v, tied to deephash.py by C06/C07's correspondence); the shared `hashes` memo table is not threaded "
-    "through the model: inputs with ==-aliasing atoms (1 / 1.0 / True) are outside the correspondence and covered by the direct oracle (known finding)",
+    "item hashes: hash_pure in diff_io (the model of the main theorems) and b06's hash_memo on the run-wide table in diff_io_m (DiffIO/DiffIOMemo.v), "
+    "both tied to deephash.py by C06/C07's correspondence; inputs with ==-aliasing atoms (1 / 1.0 / True) are compared against diff_io_m, which predicts finding K2; "
+    "C05_memo_transparent_partial + C05_traversal_order_irrelevant connect the two models where nothing aliases",
     "hypotheses on the hasher H (outputs non-empty and free of , ; : | { }; injective) stand for SHA-256 hexdigest being collision-free: premises of "
     "C05_verdict_partial / C05_knob_independence / C05_different_hash_nonempty, not axioms; satisfiable (unary_hash, proved); C05_equal_gives_empty needs none",
     "max_diffs, custom operators, exclude/include paths, numpy, custom objects, cyclic/shared containers are outside the model",
@@ -317,7 +318,8 @@ def k2_match(case):
 
 MATCHERS = {"C05-K1-tag-collision": k1_match, "C05-K2-memo-alias": k2_match}
 
-SAFE_NS = {"frozenset": frozenset, "set": set, "True": True, "False": False, "None": None}
+import datetime as _dt
+SAFE_NS = {"frozenset": frozenset, "set": set, "True": True, "False": False, "None": None, "datetime": _dt}
 
 
 def from_repr(s):
@@ -525,6 +527,15 @@ ALIAS_FIXED = [
     ([1.0, 1], [1]), ([1, 1.0], [1.0]), ([[1, 2], [1.0, 2]], [[2, 1]]), ([True, 1], [1, True]), ([0, False, 0.0], [0.0]),
     ([(1, "a"), (1.0, "a")], [(True, "a")]), ({"a": [1], "b": [1.0, 2]}, {"b": [2, 1], "a": [1.0]}),
     ([{1: "x"}, {1.0: "x"}], [{True: "x"}]), ([{1, 2}, {1.0, 2.0}], [{2, 1}]), ([[1.0], [1]], [[1], [1.0], [True]]),
+]
+
+# times as list items (direct oracle only; 82f0543: the pairing distance kept no microseconds)
+_T = _dt.time
+FIXED_TIMES = [
+    ([[_T(1, 2, 3, 5), "a", "b"], [_T(1, 2, 3, 9), "c", "d"], 7], [7, [_T(1, 2, 3, 9), "d", "c"], [_T(1, 2, 3, 5), "b", "a"]]),
+    ([[_T(1, 2, 3, 5), "a", "b", "c"], 7], [7, [_T(1, 2, 3, 6), "a", "b", "c"]]),
+    ([_T(1, 2, 3, 5), _T(1, 2, 3, 6)], [_T(1, 2, 3, 6), _T(1, 2, 3, 5), _T(1, 2, 3, 5)]),
+    ([{"t": _T(0, 0, 0, 1), "k": [1, 2]}, {"t": _T(0, 0, 0, 2), "k": [1, 2]}], [{"t": _T(0, 0, 0, 2), "k": [2, 1]}, {"t": _T(0, 0, 0, 3), "k": [1, 2]}]),
 ]
 
 FIXED_FINDINGS = [
@@ -899,7 +910,9 @@ def replay_witnesses(ctx):
             ctx.break_("correspondence", {"name": name, "detail": detail})
     probe("C05_verdict_tag_refuted([None] vs ['NONE'])", [None], ["NONE"], True,
           "[None] vs ['NONE'] is now reported as different: the model (K1 collision) is stale")
-    probe("C05_verdict_alias_refuted({1:'a'} vs {1.0:'a'})", {1: "a"}, {1.0: "a"}, True,
+    probe("C05_verdict_alias_refuted([1] vs [1.0], shared hashes table)", [1], [1.0], True,
+          "[1] vs [1.0] is now reported as different: the memo-threading model (table keyed by ==) is stale")
+    probe("C05_verdict_key_alias_refuted({1:'a'} vs {1.0:'a'})", {1: "a"}, {1.0: "a"}, True,
           "{1:'a'} vs {1.0:'a'} is now reported as different: the model (keys matched by ==) is stale")
     d = {"a": 1, "b": 2}
     probe("C05_threshold_above_one_refuted({'a':1,'b':2} vs itself, threshold 2)", d, dict(d), False,
@@ -940,7 +953,7 @@ def run(ctx):
         for a, b, _k in gen[n_grid:]:
             jobs.append((a, b, rng.sample(ALL_KNOBS, 24)))
         # guard-boundary inputs (aliasing atoms, tag-like strings): every failure must be a known finding
-        for a, b in FIXED_FINDINGS:
+        for a, b in FIXED_FINDINGS + FIXED_TIMES:
             jobs.append((a, b, rng.sample(ALL_KNOBS, 12)))
         n_alias = 0
         while n_alias < (300 if ctx.thorough else 60):
